@@ -10,7 +10,9 @@
     and Remove(d) parked at the remove.checked hook while WriteFile / MkdirAll
     beneath d complete (deterministic witness of the finding); Writer on a new file
     (parked before it locks the node where the code still has such a point) against
-    ReadFile, and ReadFile against an open writer handle.
+    ReadFile, and ReadFile against an open writer handle; a directory copy racing with
+    removals of the directory's children (MemCopyDir.tla): the copy must hold the
+    children of one instant (all minus a prefix of the removal order, each once).
 (T) 2-6 goroutines with random mixes of write / stream write / read / mkdir / remove /
     recursive remove / list / copy / queries on shared paths, GOMAXPROCS 1/2/4/N;
     Trace_MemFSLin.tla decides linearizability with respect to FsTree (every call's
@@ -47,6 +49,14 @@ def run(ctx):
         raise vlib.Infra('spec self-test failed: the old lock order does not deadlock in the model')
     if 'NoLostWrite' not in r2['violated']:
         raise vlib.Infra('spec self-test failed: the lock model no longer shows the remove-vs-create lost write')
+    # directory copy against removals of its children: the children array is shifted in place by removals
+    mcd = '---- MODULE MC ----\nEXTENDS MemCopyDir\nRm == <<2, 1, 4>>\n====\n'
+    cdcfg = 'SPECIFICATION Spec\nCONSTANTS\n  N = 5\n  Removals <- Rm\n  Variant = "%s"\nINVARIANT SnapshotIsPrefix\nPROPERTY Terminates\n'
+    ctx.tlc_must_pass('fs', 'MC', 'cd.cfg', workers=2, timeout=300, files={'MC.tla': mcd, 'cd.cfg': cdcfg % 'locked'}, name='directory copy vs child removals, index lock held during the walk')
+    r4 = ctx.tlc('fs', 'MC', 'cd.cfg', workers=2, timeout=300, files={'MC.tla': mcd, 'cd.cfg': cdcfg % 'sharedhdr'}, name='directory copy walking the live array after unlocking (must violate SnapshotIsPrefix)')
+    ctx.cov['states'] -= r4['distinct']; ctx.cov['transitions'] -= r4['generated']
+    if 'SnapshotIsPrefix' not in r4['violated']:
+        raise vlib.Infra('spec self-test failed: walking the live array does not tear the directory copy in the model')
     m = ctx.vh(['memwitness'])
     ctx.cov['replay'].append(dict(what='model schedules on the real code', executed=m['executed'], failures=m['failures_by_key'], known=m.get('known')))
     ctx.cov['evaluations'] += m['executed']
